@@ -132,7 +132,7 @@ Proof.
   - intros P s HP Hs. apply ve_iff in HP. apply vs_iff in Hs. apply ve_iff. cbn.
     pose proof (all2_spec _ _ _ chk_mul_valid P s ltac:(unfold q in *; lia) ltac:(unfold q in *; lia)) as H. cbn beta zeta in H.
     apply andb_true_iff in H as [H1 H2]. apply Z.ltb_lt in H1, H2. lia.
-  - intros P a b. cbn. rewrite !Z.mul_mod_idemp_l by (unfold q; lia). f_equal. ring.
+  - intros P a b _ _ _. cbn. rewrite !Z.mul_mod_idemp_l by (unfold q; lia). f_equal. ring.
   - intros P r HP Hr. apply ve_iff in HP. apply vs_iff in Hr. cbn.
     pose proof (all2_spec _ _ _ chk_mul_inv P r ltac:(unfold q in *; lia) ltac:(unfold q in *; lia)) as H.
     now apply Z.eqb_eq in H.
@@ -143,7 +143,7 @@ Proof.
   - intros P HP. apply ve_iff in HP. cbn. destruct P; try reflexivity; lia.
   - intros b e H. cbn in H. apply byte2z_inv in H as (H & _ & _). now apply ve_iff.
   - intros b s _ H. cbn in H. apply byte2z_inv in H as (H & _ & _). now apply vs_iff.
-  - intros h id seed s H. cbn in H. injection H as <-. apply vk_iff.
+  - intros h id seed s _ H. cbn in H. injection H as <-. apply vk_iff.
     pose proof (Z.mod_pos_bound (hz (seed ++ id)) 40 ltac:(lia)). lia.
   - intros s Hs. apply vk_iff in Hs. apply vp_iff. cbn.
     pose proof (all1_spec _ _ _ chk_pub_valid s ltac:(unfold q in *; lia)) as H. cbn beta zeta in H.
